@@ -174,9 +174,10 @@ SetSysPhasesEff(S, a) == [S EXCEPT !.sysph = a.phases]
 
 (* set_comp_phases(name, phase_conf) : a.ref is a name or a rail,            *)
 (* a.conf = [t |-> "list" | "map" | "bad", v |-> ...]                         *)
+\* (an empty dict / list - conf.t = "none" - is accepted and clears the configuration)
 SetCompPhasesOK(S, a) ==
   /\ Known(S, a.ref)
-  /\ a.conf.t \in {"list", "map"}
+  /\ a.conf.t \in {"list", "map", "none"}
   /\ Kind(S, Resolve(S, a.ref)) # "SLOSS"
 SetCompPhasesEff(S, a) == [S EXCEPT !.pconf[Resolve(S, a.ref)] = a.conf]
 
